@@ -20,6 +20,11 @@ NA = {
 }
 
 CLAIMS = {
+    'C12': dict(
+        category='fault_enumeration', technique='deterministic simulation with fault injection: in-memory disk behind open/os.*, complete single-fault enumeration per workload (kill before/after/torn at every disk operation, every legal errno, sticky ENOSPC, short write, EINTR), baton-passed two-writer interleavings',
+        engine='E2-simfs',
+        text='Each seeded workload (destination state, stale temp files, body script with writes straddling the buffer size, body exception, writer reuse, bytes/text, host newline mode, buffer size) is first run fault-free to obtain NEW and its N disk operations; then every single-fault plan over those N operations is executed on a fresh simulated disk and the frozen disk (after a kill) or the disk after the handled failure is judged: destination is exactly OLD or NEW, bystanders untouched, no temp file left by a handled failure, restart on the surviving bytes succeeds. Two writers run as real threads parked at every disk operation; all (i,j) boundary pairs and seeded interleavings are executed. Complete for the single-fault space of each explored workload; workloads themselves are sampled.',
+        note='Process-kill crash model (no power-loss reordering); SimFS validated against a real directory (tools/fidelity.py); CPython io layers are the real ones.', ref='5/C12'),
     'C01': dict(
         category='exploration', technique='deterministic simulation: seeded tree workload x serialise options x seeded chunk/file delivery schedules, reference model = the tree',
         engine='E1-stream',
